@@ -105,6 +105,11 @@ func c12Get(shape int, desc int) *c12Decl {
 	case 2: // command with a group
 		top.Opts = basic[:1]
 		top.Cmds = []*decl.Cmd{{Field: "Cmd", Name: "cmd", Opts: basic[1:], Groups: []*decl.Group{{Field: "CG", Name: "Cmd Group", Opts: append(typed, extra...)}}}}
+	case 4: // three levels of commands (sections named by the full dotted path)
+		top.Opts = basic[:1]
+		leaf := &decl.Cmd{Field: "Leaf", Name: "leaf", Opts: append(append([]*decl.Opt{}, basic[1:]...), typed...), Groups: []*decl.Group{{Field: "LG", Name: "Leaf Group", Opts: extra}}}
+		mid := &decl.Cmd{Field: "Mid", Name: "mid", SubOptional: true, Cmds: []*decl.Cmd{leaf}}
+		top.Cmds = []*decl.Cmd{{Field: "Cmd", Name: "cmd", SubOptional: true, Cmds: []*decl.Cmd{mid}}}
 	case 3: // sub-subcommand
 		top.Opts = basic[:1]
 		sub := &decl.Cmd{Field: "Sub", Name: "sub", Opts: append(append([]*decl.Opt{}, basic[1:]...), typed...), Groups: []*decl.Group{{Field: "SG", Name: "Sub Group", Opts: extra}}}
@@ -169,7 +174,7 @@ func init() {
 	long := []string{strings.Repeat("x", 4095), strings.Repeat("x", 4096), strings.Repeat("é", 2049), strings.Repeat("y z", 3400)}
 	body := func(c *explore.Ctx) {
 		part := c.Choose(2)
-		shape := c.Choose(4)
+		shape := c.Choose(5)
 		desc := c.Choose(3)
 		wo := c.Choose(8)
 		state := c.Choose(3) // 0 fresh; 1 after reading quoted values; 2 after reading entries keyed by other names
@@ -321,7 +326,7 @@ func init() {
 		Body:       body,
 		Rule: "(A) every string of length <= 2 (quick) / <= 3 (thorough) over {space tab \" \\ a LF CR é 0xFF = : ; # [ ] NBSP ,} plus 4095/4096/4098/10200-byte strings, used as a string option, a slice element (alone / second), a map value, a map key (only keys the key:value syntax can express), a string with a default tag; " +
 			"(B) 20 typed fields (ints in bases 2/10/16/36 at their limits, uints, float32/64 incl. max, denormal, +-Inf, -0, NaN, bool, []bool, Duration limits, *int, *string, Marshaler/Unmarshaler, []int, map[string]int, map[int]string, map[string]bool, []uint8 base 16) each with its interesting values, and all fields set at once; " +
-			"x 4 declaration shapes (flat, nested namespaced groups, command with group, sub-subcommand; with ini-name, hidden, no-ini and callback options) x description {none, one line, two lines} x all 8 IniOptions x writer state {fresh, option previously read quoted, previously read under its long name}; " +
+			"x 5 declaration shapes (flat, nested namespaced groups, command with group, sub-subcommand, command three levels deep with a group; with ini-name, hidden, no-ini and callback options) x description {none, one line, two lines} x all 8 IniOptions x writer state {fresh, option previously read quoted, previously read under its long name}; " +
 			"oracle: Write -> Parse into a fresh parser over the same declaration -> ParseArgs(nil): every written option equal (NaN-aware); distinct = distinct (usage, value class, options/state/shape, result)",
 		Assumptions:  []string{"values are stored into the option struct after an initial ParseArgs(nil), as a program does before saving its configuration", "map keys restricted exactly as the statement restricts them"},
 		RequiredHits: []string{"usage:string", "usage:map-key", "usage:map-value", "usage:slice-element", "usage:all-fields", "usage:typed:float32", "usage:typed:int8/base36", "writer-state"},
